@@ -216,7 +216,9 @@ def run(chk):
                 skind = "loop" if ("into_iter(" in o.desc or "for_each(" in o.desc or "fold(" in o.desc or o.desc.startswith("loop(")) else "dimension" if "#arg" in o.desc else "allocation"
                 # the key names the function, the kind of sink and where the number comes from - not the expression (a renamed local or
                 # an extracted helper does not make a known unbounded loop a new one); the sinks of one kind are counted
-                chk.finding("%s|MAG|%s|from %s" % (ob.short(), skind, b.short()), detail="%s|MAG|%s|from %s" % (ob.short(), o.desc, b.short()),
+                # keyed by the function that lets the number through unclamped and the kind of sink; the function the sink stands in
+                # is in the detail (the same loop moved into a helper is the same finding)
+                chk.finding("%s|MAG|%s" % (b.short(), skind), detail="%s|MAG|%s|from %s" % (ob.short(), o.desc, b.short()),
                             rule="R-MAG", where="%s:%s" % (o.file, o.line), fn=ob.short(),
                             what=o.what + via + ": it derives from a number decoded from the input")
             else:
